@@ -45,6 +45,8 @@ CLASS_DESCR = {"U": "ASCII upper", "L": "ASCII lower", "D": "ASCII digit", "_": 
 
 
 def run(repo: Repo, rep: Report, tier: str) -> None:
+    from sa.report import guarded as _guarded
+
     utils = repo.module("core.utils")
     ns = utils.classes.get("NameSanitizer")
     if ns is None:
@@ -88,20 +90,20 @@ def run(repo: Repo, rep: Report, tier: str) -> None:
     from rules._reuse import reuse as _reuse20
 
     _reuse20(repo, rep, "c04", {"R4.4": "R20.4"})
-    rule_stored_names_are_fixed_points(repo, rep, "R20.5")
+    _guarded(rep, rule_stored_names_are_fixed_points, repo, rep, "R20.5")
     # R20.6: tags are the one namespace without a de-duplication step - two tag groups never derive the same module / class / attribute
     # name because the grouping key is at least as coarse as those names                                                   [= R7.7]
-    rule_models_spare_endpoint_names(repo, rep, "R20.13")
+    _guarded(rep, rule_models_spare_endpoint_names, repo, rep, "R20.13")
     _reuse20(repo, rep, "c07", {"R7.7": "R20.6", "R7.14": "R20.12"})  # R20.12: a tag attribute never takes the name of a member of APIClient
     # R20.7: a reference is resolved by the exact name it carries: when two schemas differ only by what sanitising removes, a lookup
     # under the sanitised name returns the other schema                                                                     [= R2.10]
     from rules.c02 import rule_exact_registry_lookups
 
-    rule_exact_registry_lookups(repo, rep, "R20.7")
+    _guarded(rep, rule_exact_registry_lookups, repo, rep, "R20.7")
     # R20.8: ... and on the registration side the sanitised key never takes the place of another declared schema's name           [= R2.14]
     from rules.c02 import rule_key_does_not_shadow_declared_name
 
-    rule_key_does_not_shadow_declared_name(repo, rep, "R20.8")
+    _guarded(rep, rule_key_does_not_shadow_declared_name, repo, rep, "R20.8")
     # R20.9: no named schema is taken out between de-collision and emission (a schema filtered out there is dropped, and the schemas that
     # collided with it are no longer told apart)                                                                   [= R1.8, file filter]
     from rules.c01 import _models_emitter_rules
@@ -111,10 +113,10 @@ def run(repo: Repo, rep: Report, tier: str) -> None:
     # R20.10: a name made up for an inline schema never equals a declared schema's name (the two would be merged)                 [= R2.17]
     from rules.c02 import rule_invented_names_avoid_declared
 
-    rule_invented_names_avoid_declared(repo, rep, "R20.10")
+    _guarded(rep, rule_invented_names_avoid_declared, repo, rep, "R20.10")
     from rules.c02 import rule_invented_names_are_per_node
 
-    rule_invented_names_are_per_node(repo, rep, "R20.11")
+    _guarded(rep, rule_invented_names_are_per_node, repo, rep, "R20.11")
     # ---------------------------------------------------------------- R20.3 validated returns
     eg = repo.module("visit.model.enum_generator").classes.get("EnumGenerator")
     if eg is None:
